@@ -52,7 +52,9 @@ SeqPorts(n, s)  == {PortId(n, s[i]) : i \in DOMAIN s}
 \* drain every in-port completely, one after the other, then emit the aligned Cartesian product, one goroutine per out-port
 IsComb(n)     == (PR(n).kind = "pcomb" /\ Len(PR(n).params) >= 2) \/ PR(n).kind = "fcomb"
 CombNames(n)  == IF PR(n).kind = "fcomb" THEN PR(n).ins ELSE PR(n).params
-IsRelay(n)    == (PR(n).kind = "pcomb" /\ ~IsComb(n)) \/ PR(n).kind = "maptotags"
+IsCat(n)      == PR(n).kind = "concat"
+     \* "concat" (Concatenator): collects its whole in-port (writing the items into one file), then emits that ONE file, PR(n).item
+IsRelay(n)    == (PR(n).kind = "pcomb" /\ ~IsComb(n)) \/ PR(n).kind = "maptotags" \/ IsCat(n)
      \* "pcomb" with one port: collects its whole input, then emits it;
      \* "maptotags": pass-through component - forwards every item as it arrives (ports in / out)
 IsPass(n)     == PR(n).kind = "maptotags"
@@ -60,12 +62,12 @@ IsPass(n)     == PR(n).kind = "maptotags"
 \* the carrier on a joined in-port ({i:x|join:SEP}): NewTask drains that channel until it is closed.
 IsSub(n)      == PR(n).kind = "substream"
 Carrier(n)    == "carrier:" \o n
-InPortsTab    == [n \in PNames |-> IF IsCmd(n) \/ PR(n).kind = "fcomb" THEN SeqPorts(n, PR(n).ins) ELSE IF IsPass(n) \/ IsSub(n) THEN {PortId(n, "in")} ELSE {}]
+InPortsTab    == [n \in PNames |-> IF IsCmd(n) \/ PR(n).kind = "fcomb" THEN SeqPorts(n, PR(n).ins) ELSE IF IsPass(n) \/ IsSub(n) \/ IsCat(n) THEN {PortId(n, "in")} ELSE {}]
 JoinPortsTab  == [n \in PNames |-> IF IsCmd(n) THEN SeqPorts(n, PR(n).joinports) ELSE {}]
 JoinPortsOf(n) == JoinPortsTab[n]
 ParamPortsTab == [n \in PNames |-> IF IsCmd(n) \/ PR(n).kind = "pcomb" THEN SeqPorts(n, PR(n).params) ELSE {}]
 FileOutsTab   == [n \in PNames |-> IF IsCmd(n) THEN SeqPorts(n, PR(n).outs)
-                                   ELSE IF PR(n).kind = "src" \/ IsPass(n) THEN {PortId(n, "out")}
+                                   ELSE IF PR(n).kind = "src" \/ IsPass(n) \/ IsCat(n) THEN {PortId(n, "out")}
                                    ELSE IF IsSub(n) THEN {PortId(n, "substream")}
                                    ELSE IF PR(n).kind = "fcomb" THEN {PortId(n, PR(n).ins[i]) \o ">" : i \in DOMAIN PR(n).ins} ELSE {}]
 ParamOutsTab  == [n \in PNames |-> IF PR(n).kind = "psrc" THEN {PortId(n, "out")}
@@ -108,6 +110,7 @@ UpsOfPort(port) == {e.from : e \in {x \in AllEdges : x.to = port /\ x.fp \in Run
                    \cup {FeedOut(f) : f \in {x \in Feeds : x.to = port}}
 ConsumerPorts == UNION {InPortsOf(n) \cup ParamPortsOf(n) : n \in RunSet}
 Relays == {n \in RunSet : IsRelay(n)}
+CatFiles == {PR(n).item : n \in {m \in RunSet : IsCat(m)}}       \* written by the component itself, created as soon as it runs
 Unwired == \E port \in ConsumerPorts :
               {e \in AllEdges : e.to = port} = {} /\ {f \in Feeds : f.to = port} = {}
 WiringFails == Cardinality(Leaves) > 1 \/ Unwired \/ RunSet = {}
@@ -142,7 +145,7 @@ EmOutTab   == [e \in EmIds |-> IF e \in FeedIds THEN FeedOut(FeedOf(e))
                                ELSE IF IsComb(e) THEN PortId(e, CombNames(e)[1]) \o ">"
                                ELSE IF IsSub(e) THEN PortId(e, "substream")
                                ELSE IF PR(e).kind = "pcomb" THEN PortId(e, PR(e).params[1]) \o ">" ELSE PortId(e, "out")]
-RelayIn(e) == IF IsPass(e) THEN PortId(e, "in") ELSE PortId(e, PR(e).params[1])
+RelayIn(e) == IF IsPass(e) \/ IsCat(e) THEN PortId(e, "in") ELSE PortId(e, PR(e).params[1])
 EmRemotesTab == [e \in EmIds |-> IF e \in FeedIds THEN {FeedOf(e).to} ELSE RemotesOf(EmOutTab[e])]
 EmOut(e)   == EmOutTab[e]
 EmRemotes(e) == EmRemotesTab[e]
@@ -187,6 +190,7 @@ CombIdx(n, op) == CHOOSE i \in DOMAIN CombNames(n) : PortId(n, CombNames(n)[i]) 
 OutStream(op) ==
   LET n == Owner(op) IN
   IF IsComb(n) THEN ProductStream([i \in DOMAIN CombNames(n) |-> InStream(PortId(n, CombNames(n)[i]))], CombIdx(n, op))   \* canonical key order
+  ELSE IF IsCat(n) THEN <<PR(n).item>>
   ELSE IF IsRelay(n) THEN InStream(RelayIn(n))
   ELSE IF IsSub(n) THEN <<Carrier(n)>>
   ELSE IF ~IsCmd(n) THEN (IF PR(n).kind = "src" THEN PR(n).items ELSE PR(n).values)
@@ -209,7 +213,7 @@ OrdIn(port) == Cardinality(UpsOfPort(port)) = 1 /\
                (\A e \in {x \in AllEdges : x.to = port /\ x.fp \in RunSet} : OrdOut(e.from))
 OrdOut(op) == LET n == Owner(op) IN
               IF IsComb(n) THEN FALSE        \* the order of the product depends on the (random) key order of the component
-              ELSE (~IsCmd(n) /\ ~IsRelay(n)) \/ \A port \in InPortsOf(n) \cup ParamPortsOf(n) : OrdIn(port)
+              ELSE (~IsCmd(n) /\ ~IsRelay(n)) \/ IsCat(n) \/ \A port \in InPortsOf(n) \cup ParamPortsOf(n) : OrdIn(port)
 \* every port of n is fed by exactly one out-port of one and the same combinator: the tuples stay aligned, their SET is order-independent
 AlignedComb(n) == \E c \in Combs : \A port \in InPortsOf(n) \cup ParamPortsOf(n) :
                      Cardinality(UpsOfPort(port)) = 1 /\ UpsOfPort(port) \subseteq OutsOf(c)
@@ -221,7 +225,7 @@ MergeInsensitive == \A n \in CmdRun :
    \/ AlignedComb(n)
 
 \* exported to the harness: the oracle for what a real run of this instance must produce
-ExpectedJson == ToJson([tasks |-> ExpTasks, files |-> ExpFiles, execkeys |-> ExpExecKeys,
+ExpectedJson == ToJson([tasks |-> ExpTasks, files |-> ExpFiles, catfiles |-> CatFiles, execkeys |-> ExpExecKeys,
                         mergeinsensitive |-> MergeInsensitive, wiringfails |-> WiringFails,
                         runset |-> RunSet, driver |-> Driver])
 ASSUME PrintT("EXPECTED " \o ExpectedJson)
@@ -268,7 +272,7 @@ EmInit == [e \in EmIds |-> [i |-> 1, left |-> EmRemotes(e), wait |-> "", eof |->
 CombOutItems(n, p) == LET perm == cb[n].perm
                           j == CHOOSE i \in DOMAIN perm : perm[i] = p
                       IN  ProductStream([i \in DOMAIN perm |-> cb[n].got[PortId(n, perm[i])]], j)
-EmItems(e) == IF e \in Relays THEN relayed[e]
+EmItems(e) == IF e \in Relays THEN (IF IsCat(e) THEN <<PR(e).item>> ELSE relayed[e])
               ELSE IF e \in SubIds THEN (IF cb[SubOwnerTab[e]].perm = <<>> THEN <<>> ELSE CombOutItems(SubOwnerTab[e], SubPortTab[e]))
               ELSE EmItemsTab[e]
 AllOuts == UNION {OutsOf(n) : n \in RunSet} \cup {EmOut(e) : e \in FeedIds}
